@@ -163,6 +163,26 @@ def link_options(ctx, which, api):
         good = out.kind == "err" and err_class(out.value) == "IntegrityError"
         ctx.expect(good, tag + ":integrity-not-enforced", "a link whose target does not match the declared integrity was not rejected",
                    native={"kind": "err_variant", "step": step, "variants": ["IntegrityError"]})
+    elif which in ("multi-wrong-strong", "multi-right"):
+        # a declared integrity with two hashes while the linker is told to use the weaker algorithm: the strongest
+        # declared hash decides, exactly as for ordinary writes
+        E = scn.blob("E")
+        scn.distinct(E, D)
+        strong = scn.sri_of(scn.whole(E if which == "multi-wrong-strong" else D), "Sha512")
+        weak = scn.sri_of(data, "Sha256")
+        r = scn.link_open("k", TARGET, {"algorithm": "Sha256", "integrity": scn.sri_multi(strong, weak)})
+        if not expect_ok(ctx, r, tag + ":open", "open"):
+            return
+        out = scn.commit(r.handle)
+        step = last(scn)
+        if not expect_no_panic(ctx, out, tag + ":commit", "commit"):
+            return
+        if which == "multi-wrong-strong":
+            good = out.kind == "err" and err_class(out.value) == "IntegrityError"
+            ctx.expect(good, tag + ":integrity-not-enforced", "a link whose target does not match the strongest declared hash was not rejected",
+                       native={"kind": "err_variant", "step": step, "variants": ["IntegrityError"]})
+        elif out.kind == "ok":
+            expect_bytes(ctx, scn.read("k"), data, tag + ":read", "read by key after linking with a two-hash integrity")
     elif which == "existing-content":
         r0 = scn.write_hash(data)
         if r0.kind != "ok":
@@ -200,6 +220,6 @@ def tasks(tier, flavours):
                 out.append(dict(module="C19", family="link_family", flavour=fl, params=dict(keyed=keyed, relative="dotdot", partial=False, after=after, api=api)))
         for after in ("second-removed", "second-rewritten"):
             out.append(dict(module="C19", family="link_twins", flavour=fl, params=dict(after=after, api=api)))
-        for which in ("size", "integrity", "existing-content"):
+        for which in ("size", "integrity", "existing-content", "multi-wrong-strong", "multi-right"):
             out.append(dict(module="C19", family="link_options", flavour=fl, params=dict(which=which, api=api)))
     return out
